@@ -68,6 +68,13 @@ def replay_one(d: dict[str, Any]) -> str | None:
     for i, rec in enumerate(d['h']):
         if rec['act'] == 'step':
             pre.step()
+        elif rec['act'] == 'restore':
+            RESTORED = {'factor_update_steps': 4, 'inv_update_steps': 5,
+                        'damping': 0.25, 'factor_decay': 0.25,
+                        'kl_clip': 1 / 64, 'lr': 0.5}
+            sd = {'steps': 7}
+            sd.update({p: RESTORED[p] for p in PARAMS if p not in d['fn']})
+            pre.load_state_dict(sd, compute_inverses=False)
         else:
             sch.step(None if rec['arg'] == -1 else rec['arg'])
         if pre.steps != rec['steps']:
@@ -119,7 +126,8 @@ def main(tier: str, seed: int) -> int:
     mod = instantiate('Sched', name, defs + 'InitMode == "frac"\n')
     base = ('SPECIFICATION Spec\nINVARIANT IntervalsAreInts\n'
             'INVARIANT FnParamsNeverScheduled\n'
-            'PROPERTY UnscheduledUnchanged\nPROPERTY OnlySchedMoves\n')
+            'PROPERTY UnscheduledUnchanged\nPROPERTY OnlySchedMoves\n'
+            'PROPERTY SchedFromCurrent\n')
     r1 = run_tlc(name, cfg_text=base + 'VIEW view\nINVARIANT ExpDecayOK\n'
                  'CHECK_DEADLOCK FALSE\n', extra_modules={name: mod},
                  workers=8, deadlock=False, timeout=1800)
